@@ -228,6 +228,26 @@ def flagsOf (compressed trusted : Bool) : Nat :=
   (if compressed then BLOCK_COMPRSD + BLOCK_SNAPPED else 0) + (if trusted then BLOCK_TRUSTED else 0)
     + BLOCK_LENGTH + BLOCK_INDEX
 
+/-- the roll-over decision of `writeOne` for `n` bytes to be written -/
+def maybeRoll (s : State) (n : Nat) : State :=
+  if s.opts.maxFileSize ≠ 0 ∧ s.maxdatfilepos + n > s.opts.maxFileSize then rollOver s else s
+
+/-- the two file writes of `writeOne` and the publication of the record's fields -/
+def writeRecord (s : State) (b2w : B2W) (r0 : Rec) (cbts : Bytes) : State :=
+  let blen := cbts.length
+  let datfileidx := s.maxdatfileidx
+  let fpos := s.maxdatfilepos
+  let ipos := s.maxidxfilepos
+  let fl := mkRecord (flagsOf s.opts.compress r0.trusted) datfileidx b2w.data.length b2w.height fpos blen
+              b2w.txcount b2w.data
+  let dat := (AL.get s.fs.dats datfileidx).getD []
+  let fs := { s.fs with dats := AL.set s.fs.dats datfileidx (pwrite dat fpos cbts),
+                        idx := pwrite s.fs.idx ipos fl }
+  let nrec := { r0 with compressed := s.opts.compress, snappied := s.opts.compress, blen := blen,
+                        datfileidx := datfileidx, fpos := fpos, ipos := some ipos }
+  { s with fs := fs, maxidxfilepos := s.maxidxfilepos + RECSIZE, maxdatfilepos := s.maxdatfilepos + blen,
+           index := AL.set s.index b2w.idx nrec }
+
 /-- `writeOne`: none when the queue is empty (Go returns false) -/
 def writeOne (env : Env) (s : State) : Option State :=
   match s.queue with
@@ -239,21 +259,7 @@ def writeOne (env : Env) (s : State) : Option State :=
     | some r0 =>
       if r0.ipos.isSome then some s else
       let cbts := if s.opts.compress then env.enc b2w.data else b2w.data
-      let blen := cbts.length
-      let s := if s.opts.maxFileSize ≠ 0 ∧ s.maxdatfilepos + cbts.length > s.opts.maxFileSize
-               then rollOver s else s
-      let datfileidx := s.maxdatfileidx
-      let fpos := s.maxdatfilepos
-      let ipos := s.maxidxfilepos
-      let fl := mkRecord (flagsOf s.opts.compress r0.trusted) datfileidx b2w.data.length b2w.height fpos blen
-                  b2w.txcount b2w.data
-      let dat := (AL.get s.fs.dats datfileidx).getD []
-      let fs := { s.fs with dats := AL.set s.fs.dats datfileidx (pwrite dat fpos cbts),
-                            idx := pwrite s.fs.idx ipos fl }
-      let nrec := { r0 with compressed := s.opts.compress, snappied := s.opts.compress, blen := blen,
-                            datfileidx := datfileidx, fpos := fpos, ipos := some ipos }
-      some { s with fs := fs, maxidxfilepos := s.maxidxfilepos + RECSIZE, maxdatfilepos := s.maxdatfilepos + blen,
-                    index := AL.set s.index b2w.idx nrec }
+      some (writeRecord (maybeRoll s cbts.length) b2w r0 cbts)
 
 /-- `writeAll` (fuel = queue length) -/
 def writeAll (env : Env) : Nat → State → State
@@ -306,6 +312,16 @@ def blockInvalid (s : State) (hash : Bytes) : State × Out :=
 
 /-! ## reading -/
 
+/-- decompression of the bytes read from the data file: (block, error) -/
+def decodeStored (env : Env) (r0 : Rec) (raw : Bytes) : Bytes × Option GetErr :=
+  if r0.compressed then
+    if r0.snappied then
+      match env.dec raw with
+      | some d => (d, none)
+      | none => ([], some .snappy)      -- "snappy.Decode() failed": bl = nil, and it is cached as such
+    else ([], some .gzip)
+  else (raw, none)
+
 def blockGet (env : Env) (s : State) (hash : Bytes) : State × Out :=
   let k := keyOf hash
   match AL.get s.index k with
@@ -323,15 +339,7 @@ def blockGet (env : Env) (s : State) (hash : Bytes) : State × Out :=
         | some file =>
           if r0.fpos + r0.blen > file.length then (s, .getErr .shortRead r0.trusted)
           else
-            let raw := (file.drop r0.fpos).take r0.blen
-            let (bl, err) : Bytes × Option GetErr :=
-              if r0.compressed then
-                if r0.snappied then
-                  match env.dec raw with
-                  | some d => (d, none)
-                  | none => ([], some .snappy)
-                else ([], some .gzip)
-              else (raw, none)
+            let (bl, err) := decodeStored env r0 ((file.drop r0.fpos).take r0.blen)
             let nrec := if r0.olen = 0 then { r0 with olen := bl.length } else r0
             let s := { s with index := AL.set s.index k nrec }
             let s := addToCache s k bl
@@ -373,17 +381,22 @@ def loadRecord (env : Env) (a : LoadAcc) (b : Bytes) : LoadAcc :=
     if env.advInvalid then { a with maxidxfilepos := a.maxidxfilepos + RECSIZE } else a
   else
     let blen0 := field b 48 52
-    let (blen, olen) := if hasFlag flags BLOCK_LENGTH then (field b 32 36, field b 32 36) else (blen0, 0)
+    let hasLen := hasFlag flags BLOCK_LENGTH
+    let blen := if hasLen then field b 32 36 else blen0      -- the local `blen` handed to walk
+    let olen := if hasLen then field b 32 36 else 0
     let datfileidx := if hasFlag flags BLOCK_INDEX then field b 28 32 else 0
     let ob : Rec := { trusted := hasFlag flags BLOCK_TRUSTED, compressed := hasFlag flags BLOCK_COMPRSD,
                       snappied := hasFlag flags BLOCK_SNAPPED, fpos := field b 40 48, blen := blen0, olen := olen,
                       datfileidx := datfileidx, ipos := some a.maxidxfilepos }
-    let a := if blen > 0 ∧ datfileidx ≠ 0xffffffff ∧ datfileidx > a.maxdatfileidx
-             then { a with maxdatfileidx := datfileidx, maxdatfilepos := 0 } else a
-    let a := { a with index := AL.set a.index (keyOf blockHash) ob }
-    let a := if ob.fpos + ob.blen > a.maxdatfilepos then { a with maxdatfilepos := ob.fpos + ob.blen } else a
-    { a with walk := ⟨blockHash, hdr, bh, blen, field b 52 56⟩ :: a.walk,
-             maxidxfilepos := a.maxidxfilepos + RECSIZE }
+    -- `if blen > 0 && ob.datfileidx != 0xffffffff && ob.datfileidx > db.maxdatfileidx { idx = …; pos = 0 }`
+    let bump : Bool := blen > 0 ∧ datfileidx ≠ 0xffffffff ∧ datfileidx > a.maxdatfileidx
+    let mdi := if bump then datfileidx else a.maxdatfileidx
+    let mdp0 := if bump then 0 else a.maxdatfilepos
+    -- `if int64(ob.fpos)+int64(ob.blen) > db.maxdatfilepos { … }`
+    let mdp := if ob.fpos + ob.blen > mdp0 then ob.fpos + ob.blen else mdp0
+    { index := AL.set a.index (keyOf blockHash) ob,
+      maxidxfilepos := a.maxidxfilepos + RECSIZE, maxdatfilepos := mdp, maxdatfileidx := mdi,
+      walk := ⟨blockHash, hdr, bh, blen, field b 52 56⟩ :: a.walk }
 
 /-- the read loop: full records only (`io.ReadFull` fails on a short tail) -/
 def loadLoop (env : Env) : Nat → Bytes → LoadAcc → LoadAcc
